@@ -9,6 +9,7 @@ use std::panic::{AssertUnwindSafe, catch_unwind};
 mod cache;
 mod codec;
 mod groups;
+mod kern;
 
 fn classify(msg: &str) -> &'static str {
     if msg.contains("overflow") {
